@@ -386,6 +386,21 @@ class FortranEngine:
         if errors not in self._ERROR_OPTIONS:
             raise ValueError(f'Invalid `errors` argument: {errors}')
 
+        # Error if the period cannot accommodate the model's lags and leads
+        # (as in `BaseModel.solve_t()`: before anything changes)
+        t_position = t
+        if t_position < 0:
+            t_position += len(self.span)
+
+        if 0 <= t_position < len(self.span) and (
+            t_position - self.lags < 0 or t_position + self.leads >= len(self.span)
+        ):
+            raise IndexError(
+                f'Position `t` ({t}) cannot accommodate the lags ({self.lags}) '
+                f'and leads ({self.leads}) of the current model instance, '
+                f'with {len(self.span)} periods in span'
+            )
+
         # Optionally copy initial values from another period
         if offset:
             t_check = t
